@@ -94,6 +94,9 @@ func (m c06seq) build() seq.Sequence {
 	if len(m.L)%3 == 1 {
 		spare = 8 + 7*(len(m.L)%11)
 	}
+	if len(m.L) == 0 && m.Off%2 == 0 {
+		spare = 16 // an empty sequence that kept its array
+	}
 	if m.IsQ {
 		ql := make([]alphabet.QLetter, len(m.L), len(m.L)+spare)
 		for i := range ql {
@@ -153,6 +156,20 @@ func c06Comp(alpha string, l byte) byte {
 func c06Scribble(s seq.Sequence, mark byte) {
 	for p := s.Start(); p < s.End(); p++ {
 		s.Set(p, alphabet.QLetter{L: alphabet.Letter(mark), Q: 1})
+	}
+}
+
+// c06Append appends the given letters (quality 1) to a linear sequence.
+func c06Append(s seq.Sequence, l string) {
+	switch v := s.(type) {
+	case *linear.Seq:
+		v.AppendLetters(alphabet.BytesToLetters([]byte(l))...)
+	case *linear.QSeq:
+		ql := make([]alphabet.QLetter, len(l))
+		for i := range ql {
+			ql[i] = alphabet.QLetter{L: alphabet.Letter(l[i]), Q: 1}
+		}
+		v.AppendQLetters(ql...)
 	}
 }
 
@@ -239,6 +256,19 @@ func c06Case(r *obs.Run, i int) {
 			c06Scribble(dst, '!')
 			if sl, _, _ = c06Obs(src, m.IsQ); !c06All(sl, '?') {
 				fail(op+"-shared-storage", fmt.Sprintf("%s: overwriting the result changed the source to %q", op, sl))
+				return false
+			}
+			// and through appends: a result (an empty one too) that is a window into the source's array with room behind it
+			// would write into the source when appended to, and the other way round
+			c06Append(dst, "^^^")
+			if sl, _, _ = c06Obs(src, m.IsQ); !c06All(sl, '?') {
+				fail(op+"-shared-storage", fmt.Sprintf("%s: appending to the result changed the source to %q", op, sl))
+				return false
+			}
+			before, _, _ := c06Obs(dst, m.IsQ)
+			c06Append(src, "$$$$")
+			if after, _, _ := c06Obs(dst, m.IsQ); after != before {
+				fail(op+"-shared-storage", fmt.Sprintf("%s: appending to the source changed the result from %q to %q", op, before, after))
 				return false
 			}
 		}
